@@ -243,6 +243,32 @@ def fromOctets (d : Deps) (bs : Bytes) : Outcome MsgKind :=
   | .err => .err
   | .panic => .panic
 
+/-! ### `Message::check` (stream framing on a `bytes::Buf` cursor) -/
+
+/-- `a - b` on `usize` as the harness builds it (overflow checks on): `none` = the subtraction panics -/
+def usub (a b : Nat) : Option Nat := if b ≤ a then some (a - b) else none
+
+/-- what `Message::check` answers: `Ok(len)`, `Err(Incomplete)`, `Err(IllegalSize)` -/
+inductive FrameCheck where
+  | complete (len : Nat) | incomplete | illegalSize
+  deriving DecidableEq, Repr
+
+/-- mirrors message.rs:171 `Message::check(src: &mut Cursor<Octs>)` on a cursor at position 0 over
+`bs`: `remaining() >= 5`, `get_u8` (version, not looked at), `get_u32` (both `Buf` reads panic when
+fewer octets remain; here 5 are present), `len <= 6` is `IllegalSize`, and `(len as usize) - 5` is a
+`usize` subtraction (`usub`: panics on underflow with overflow checks on) compared with what
+remains after the five octets read. -/
+def msgCheck (bs : Bytes) : Outcome FrameCheck :=
+  if bs.length ≥ 5 then
+    match rdBE bs 0 1, rdBE bs 1 4 with          -- `src.get_u8()`, `src.get_u32()`
+    | .ok _, .ok len =>
+      if len ≤ 6 then .ok .illegalSize else
+      match usub len 5 with                       -- `(len as usize) - 5`
+      | none => .panic
+      | some need => if bs.length - 5 ≥ need then .ok (.complete len) else .ok .incomplete
+    | _, _ => .panic
+  else .ok .incomplete
+
 /-! ### accessors: common header -/
 
 def chVersion (bs : Bytes) : Outcome Nat := idx bs 0
@@ -352,22 +378,27 @@ def stats (bs : Bytes) : Outcome (List Stat) :=
 
 /-! ### information TLVs (Initiation, PeerUp) -/
 
-/-- `InformationTlvIter` collected: (type, length field, value); positions absolute -/
+/-- `InformationTlvIter` collected: (type, length field, value); positions absolute.
+mirrors message.rs:1239 `get_tlv` line by line: `s` = the u16 at `pos+2..=pos+3` of the iterator's
+slice, the TLV = `slice[pos .. pos+4+s]`, then the position advances by `res.length() as usize + 4`
+where `res.length()` is read AGAIN from octets 2..=3 of the TLV just cut (message.rs:1182; usize
+addition since the repair a2c6fb4 – in `Nat` here, a usize cannot overflow on a slice that exists);
+each item is observed through `typ()` (octets 0..=1), `length()` and `value()` (`[4..]`). -/
 def infoTlvIter (bs : Bytes) : Nat → Nat → Outcome (List (Nat × Nat × Bytes))
   | 0, pos => if pos = bs.length then .ok [] else .panic   -- unreachable with fuel = length + 1
   | f + 1, pos =>
     if pos = bs.length then .ok [] else
     match rdBE bs (pos + 2) 2 with
-    | .ok len =>
-      match slice bs pos (pos + 4 + len) with
+    | .ok s =>
+      match slice bs pos (pos + 4 + s) with
       | .ok tlv =>
-        match rdBE tlv 0 2, sliceFrom tlv 4 with
-        | .ok typ, .ok v =>
-          match infoTlvIter bs f (pos + len + 4) with
+        match rdBE tlv 0 2, rdBE tlv 2 2, sliceFrom tlv 4 with
+        | .ok typ, .ok len, .ok v =>
+          match infoTlvIter bs f (pos + (len + 4)) with
           | .ok l => .ok ((typ, len, v) :: l)
           | .err => .err
           | .panic => .panic
-        | _, _ => .panic
+        | _, _, _ => .panic
       | _ => .panic
     | _ => .panic
 
